@@ -67,9 +67,15 @@ def tree_payload(tree) -> list:
 def cube_coords(spec, waves, shape) -> dict:
     """Coordinates of a photon cube: always `wavelength`; per `spec` y / x labels, further coordinates (along y,
     along wavelength, over (y, x), a scalar), given in one of several orders."""
-    wl = [500.0 + 100.0 * k for k in range(waves)]
-    items = [("wavelength", wl)]
     spec = spec or {}
+    wl_kind = spec.get("wl_kind", "default")
+    if wl_kind == "decreasing":
+        wl = [900.0 - 100.0 * k for k in range(waves)]
+    elif wl_kind == "uneven":
+        wl = [400.0 + 37.0 * k * k for k in range(waves)]
+    else:
+        wl = [500.0 + 100.0 * k for k in range(waves)]
+    items = [("wavelength", wl)]
     if spec.get("y") is not None:
         items.append(("y", [float(v) if v != int(v) else int(v) for v in spec["y"]]))
     if spec.get("x") is not None:
@@ -198,6 +204,8 @@ def last(detector, group="", name=""):
     vis = visible(detector)
     TRACE.append(dict(kind="model", step=int(detector.pipeline_count), group=group, name=name,
                       before=vis, after=vis))
-    TRACE.append(dict(kind="snap", step=int(detector.pipeline_count),
+    raw = getattr(detector.photon, "_array", None)
+    wl = np.asarray(raw.coords["wavelength"].values).reshape(-1).tolist() if hasattr(raw, "coords") and "wavelength" in raw.coords else []
+    TRACE.append(dict(kind="snap", step=int(detector.pipeline_count), wavelengths=wl,
                       abs_time=float(detector.absolute_time), snap=containers(detector),
                       scene=tree_payload(detector.scene.data), data=tree_payload(detector.data)))
